@@ -35,6 +35,11 @@ void h_generate(void) {
             if (blinded && b >= n) __CPROVER_assert(ret == 0, "C08 generate_blinded: blinding factor >= n rejected");
         }
 #endif
+        /* C20: secp256k1_generator_generate is documented to accept ANY context (no is_built gate), also the static one and
+         * byte copies of it: its result must not depend on the context's generator tables, i.e. the unblinded derivation
+         * never reaches secp256k1_ecmult_gen (here: for a built AND for an unbuilt context). */
+        if (!blinded) __CPROVER_assert(g_gen_n == 0, "C20/C08 generator_generate: the unblinded derivation never uses the context's generator multiplication (any context, also the static one, gives the same result)");
+        if (!blinded && !built && ret == 1) REACH("generate unblinded success on a context that is not built");
         if (ret == 1) {     /* wiring is demanded of a successful derivation only (a failing one may stop anywhere) */
             __CPROVER_assert(g_fin_n >= 2 && g_w_started && g_w_b0 == 0 && g_w_s0 == 0x6a09e667ul && g_w_fin && g_w_end == 48, "C08 generate: the two seeds hashes are plain SHA-256 over 48 bytes");
             if (wpos < 16) __CPROVER_assert(g_w_hit && g_w_byte == (we == 0 ? p1[wpos] : p2[wpos]), "C08 generate: bytes 0..15 are the generation prefix");
